@@ -22,7 +22,7 @@ def _cls(path):
 
 
 def pat_of(path):
-    return _cls(path)._regex_prog.pattern
+    return _cls(path)._regex_prog        # the compiled object, so that its flags are translated too
 
 
 def uS():
